@@ -108,7 +108,7 @@ REACH = ['thermo/Thermodynamics.py:GeneralThermodynamics._getDrivingForceTangent
          'precipitation/PrecipitationParameters.py:Constraints.computeDTfromVolume',
          'precipitation/KWNEuler.py:PrecipitateModel._calcNucleationSites',
          'precipitation/KWNEuler.py:PrecipitateModel.getDt']
-MIN_NONTRIVIAL = {'quick': 150, 'thorough': 1500}
+MIN_NONTRIVIAL = {'quick': 3000, 'thorough': 60000}
 CASE_TIMEOUT = 1500
 CASE_TIMEOUT_THOROUGH = 3600
 MAX_INCONCLUSIVE_FRACTION = 0.0
@@ -123,8 +123,10 @@ MANIFEST = {
             'homogenization diffusion runs compared at every recorded step) and permuted precipitate lists (Al-Mg-Si runs compared step by step '
             'with a memoryless backend: bit-level agreement measured); the same permutation oracle is applied directly to every step-size rule '
             '(synthetic inputs and the in-run state) and to the nucleation-site competition.',
-    'note': 'trusted: numpy; determinism of kawin+pycalphad for identical inputs on fresh objects (measured bit-identical); tolerances 1e-8 '
-            '(queries, measured noise <= 3e-10), 1e-6 (trajectories, measured 0), 1e-12 (min/sum reductions)',
+    'note': 'trusted: numpy; determinism of kawin+pycalphad for identical inputs on fresh objects in one process (measured bit-identical); '
+            'tolerances: 1e-6 point queries (solver-convergence noise, worst measured 3.3e-9), 1e-7 diffusion runs (worst 2e-10), trajectories 1e-6 '
+            '(two phases, measured 0) / 1e-4 (three phases, measured 2.1e-6), 1e-12 min/sum reductions; points inside a miscibility gap are counted, '
+            'their equilibrium-based queries not judged',
     'technique': 'differential / metamorphic monitor over paired executions (permuted vs. unpermuted configuration)',
 }
 
